@@ -2073,6 +2073,206 @@ def stream_utm(ctx, out):
         H.HTTPClient.open = orig_open
 
 
+# ----------------------------------------------------------------------------------------------- stream invalid
+
+# limited_to geometries that are not valid in the OGC sense (self-crossing rings, "bow ties"), relative to the query
+# extent.  load_limited_to does not validate or repair them.  For each of them the even-odd and the non-zero fill rule
+# give the same point set, so "outside the geometry" has one meaning.  `valid` is the same point set written as a valid
+# MULTIPOLYGON (control: must be clipped and must show content).
+INVALID_SHAPES = [
+    ('bowtie-h', [(0.125, 0.125), (0.875, 0.875), (0.875, 0.125), (0.125, 0.875)],
+     [[(0.125, 0.125), (0.5, 0.5), (0.125, 0.875)], [(0.875, 0.875), (0.875, 0.125), (0.5, 0.5)]]),
+    ('bowtie-v', [(0.125, 0.125), (0.875, 0.125), (0.125, 0.875), (0.875, 0.875)],
+     [[(0.125, 0.125), (0.875, 0.125), (0.5, 0.5)], [(0.125, 0.875), (0.5, 0.5), (0.875, 0.875)]]),
+    # the extent of the geometry contains the whole query extent, the crossing point lies inside the query extent
+    ('bowtie-big', [(-0.5, -0.5), (1.5, 1.5), (1.5, -0.5), (-0.5, 1.5)],
+     [[(-0.5, -0.5), (0.5, 0.5), (-0.5, 1.5)], [(1.5, 1.5), (1.5, -0.5), (0.5, 0.5)]]),
+    ('bowtie-off', [(0.0625, 0.25), (0.9375, 0.5), (0.9375, 0.125), (0.0625, 0.9375)],
+     None),
+]
+
+
+def stream_invalid(ctx):
+    """Deterministic probe (independent of the seed): the authorize callback limits a layer / the whole request to a
+    self-crossing polygon given in the SRS of the request.  GEOS may refuse the overlay of such a geometry with the
+    request bbox; whatever the implementation does then (error answer or image), no pixel more than one pixel outside
+    the geometry may be delivered.  WMS (per layer, global; direct source and cache), TMS, KML, WMTS (REST, KVP); WKT
+    and shapely object; plus the mask functions (mask_image, LayerMerger.merge) directly."""
+    import yaml
+    import mapproxy.client.http as H
+    from mapproxy.wsgiapp import make_wsgi_app
+    from webtest import TestApp
+    d = ctx.tmpdir('invalid')
+    doc = {
+        'services': {'tms': {}, 'kml': {}, 'wmts': {'restful': True, 'kvp': True},
+                     'wms': {'md': {'title': 't'}, 'srs': ['EPSG:4326', 'EPSG:3857']}},
+        'layers': [{'name': 'l0', 'title': 'l0', 'sources': ['c0']}, {'name': 'l1', 'title': 'l1', 'sources': ['s1']}],
+        'caches': {'c0': {'grids': ['gnw'], 'sources': ['s0'], 'format': 'image/png', 'meta_size': [1, 1], 'meta_buffer': 0,
+                          'disable_storage': True}},
+        'sources': {'s0': {'type': 'wms', 'req': {'url': 'http://upstream.invalid/s', 'layers': 'u0'},
+                           'supported_srs': ['EPSG:4326', 'EPSG:3857']},
+                    's1': {'type': 'wms', 'req': {'url': 'http://upstream.invalid/s', 'layers': 'u1', 'transparent': True},
+                           'supported_srs': ['EPSG:4326', 'EPSG:3857']}},
+        'grids': GRIDS,
+        'globals': {'cache': {'base_dir': os.path.join(d, 'cache'), 'lock_dir': os.path.join(d, 'locks'),
+                              'tile_lock_dir': os.path.join(d, 'tlocks')},
+                    'image': {'resampling_method': 'nearest'}},
+    }
+    path = os.path.join(d, 'mapproxy.yaml')
+    with open(path, 'w') as f:
+        yaml.safe_dump(doc, f)
+    up = Upstream()
+    orig_open = H.HTTPClient.open
+    H.HTTPClient.open = lambda self, url, data=None, method=None: up.open(url, data, method)
+
+    def ring_wkt(ring, bbox):
+        pts = _ring_abs(ring, bbox)
+        return '((' + ', '.join('%r %r' % p for p in pts + [pts[0]]) + '))'
+
+    def limited_to(ring, valid, form, srs, bbox):
+        if valid is not None:
+            wkt = 'MULTIPOLYGON(' + ', '.join(ring_wkt(r, bbox) for r in valid) + ')'
+        else:
+            wkt = 'POLYGON' + ring_wkt(ring, bbox)
+        if form == 'shapely':
+            import shapely.wkt
+            return {'srs': srs, 'geometry': shapely.wkt.loads(wkt)}
+        return {'srs': srs, 'geometry': wkt}
+
+    def check_pixels(rgba, shape, what, rep, bg=None, inside=None):
+        w, h = rgba.size
+        leak = lost = None
+        nout = nin = 0
+        for py in range(h):
+            for px in range(w):
+                cls = shape_class(shape, (px + 0.5) / w, 1.0 - (py + 0.5) / h, w, h, margin=1.5)
+                got = rgba.getpixel((px, py))
+                if cls == 'out':
+                    nout += 1
+                    ok = got[3] == 0 if bg is None else tuple(got[:3]) == tuple(bg)
+                    if not ok and leak is None:
+                        leak = (px, py, got)
+                elif cls == 'in':
+                    nin += 1
+                    if inside is not None and (got[3] != 255 or tuple(got[:3]) != tuple(inside)) and lost is None:
+                        lost = (px, py, got)
+        if leak:
+            ctx.fail('clip-leak,invalid-geometry,' + what, 'pixel (%d,%d) = %r lies more than one pixel outside the limited_to '
+                     'geometry (a self-crossing polygon) and is delivered' % leak, dict(rep, outside_pixels=nout, inside_pixels=nin))
+        if lost:
+            ctx.fail('content-lost-inside,' + what, 'pixel (%d,%d) = %r lies inside the (valid) limited_to geometry'
+                     % lost, dict(rep, outside_pixels=nout, inside_pixels=nin))
+        return leak is None and lost is None
+
+    try:
+        try:
+            tapp = TestApp(make_wsgi_app(path))
+        except Exception as e:  # noqa
+            ctx.problem('harness', 'invalid-geometry configuration rejected: %r' % (e,), doc)
+            return
+        reqs = []
+        for bbox, srs in (([0.0, 0.0, 10.0, 10.0], 'EPSG:4326'), ([1000000.0, 2000000.0, 1400000.0, 2400000.0], 'EPSG:3857')):
+            for layer in ('l1', 'l0'):
+                for transparent in (True, False):
+                    u = ('/service?request=GetMap&service=WMS&version=1.1.1&srs=%s&bbox=%s&width=96&height=96&styles=&'
+                         'format=image/png&layers=%s' % (srs, ','.join(repr(v) for v in bbox), layer))
+                    reqs.append(('wms', layer, u + ('&transparent=true' if transparent else '&bgcolor=0x102030'),
+                                 None if transparent else (0x10, 0x20, 0x30)))
+        for z, x, y in ((1, 1, 0), (2, 2, 1)):
+            reqs.append(('tms', 'l0', '/tms/1.0.0/l0/EPSG4326/%d/%d/%d.png' % (z, x, y), None))
+            reqs.append(('kml', 'l0', '/kml/l0/EPSG4326/%d/%d/%d.png' % (z, x, y), None))
+            reqs.append(('wmts_rest', 'l0', '/wmts/l0/gnw/%d/%d/%d.png' % (z, x, y), None))
+            reqs.append(('wmts_kvp', 'l0', '/service?service=WMTS&request=GetTile&version=1.0.0&layer=l0&style=&tilematrixset=gnw&'
+                         'tilematrix=%d&tilecol=%d&tilerow=%d&format=image/png' % (z, x, y), None))
+        if getattr(ctx, 'quick', False):
+            # quick tier: one WMS request per (srs, layer kind), one tile per service
+            reqs = [reqs[0], reqs[3], reqs[5]] + reqs[8:12]
+        import logging
+        logging.disable(logging.CRITICAL)       # the error answers are expected: do not log 500 tracebacks
+        for svc, layer, url, bg in reqs:
+            feature = 'map' if svc == 'wms' else 'tile'
+            for name, ring, valid in INVALID_SHAPES:
+                shape = {'kind': name, 'polys': [[[list(p) for p in ring], []]]}
+                for variant in (['invalid', 'control'] if valid is not None else ['invalid']):
+                    for per_layer in (True, False):
+                        for form in ('wkt', 'shapely'):
+                            if variant == 'control' and form == 'shapely':
+                                continue
+                            calls = []
+
+                            def authorize(service, layers=[], environ=None, query_extent=None, **kw):
+                                calls.append(query_extent)
+                                q_srs, q_bbox = query_extent
+                                lt = limited_to(ring, valid if variant == 'control' else None, form, q_srs, [float(v) for v in q_bbox])
+                                res_ = {'authorized': 'partial', 'layers': {layer: {feature: True}}}
+                                if per_layer:
+                                    res_['layers'][layer]['limited_to'] = lt
+                                else:
+                                    res_['limited_to'] = lt
+                                return res_
+                            rep = {'stream': 'invalid-geometry', 'url': url, 'shape': name, 'ring_relative_to_query_extent': ring,
+                                   'variant': variant, 'limit': 'layer' if per_layer else 'global', 'form': form}
+                            try:
+                                resp = tapp.get(url, extra_environ={'mapproxy.authorize': authorize}, expect_errors=True)
+                                status = resp.status_int
+                            except Exception as e:  # noqa
+                                # the application raised: nothing is delivered
+                                ctx.count('invalid.%s.exception.%s' % (variant, type(e).__name__))
+                                ctx.case(('invalid', url, name, variant, per_layer, form), True, rep)
+                                continue
+                            ctx.case(('invalid', url, name, variant, per_layer, form), True, rep)
+                            ctx.count('invalid.%s.%s.status=%d' % (variant, svc, status))
+                            img = decode(resp) if status == 200 else None
+                            if img is None:
+                                if variant == 'control':
+                                    ctx.fail('control-no-image,' + svc, 'a valid limited_to geometry gives status %d without image'
+                                             % status, rep)
+                                continue        # error answer: nothing delivered
+                            rep = dict(rep, query_extent=[calls[0][0], list(calls[0][1])] if calls and calls[0] else None)
+                            inside = color_of(1 if layer == 'l1' else 0) if variant == 'control' else None
+                            check_pixels(img.convert('RGBA'), shape, svc, rep, bg=bg, inside=inside)
+    finally:
+        H.HTTPClient.open = orig_open
+        import logging
+        logging.disable(logging.NOTSET)
+
+    # the mask functions directly (what every service uses to clip)
+    from PIL import Image
+    from mapproxy.image import ImageSource
+    from mapproxy.image.mask import mask_image, mask_image_source_from_coverage
+    from mapproxy.image.merge import LayerMerger
+    from mapproxy.image.opts import ImageOptions
+    from mapproxy.util.coverage import load_limited_to
+    from mapproxy.srs import SRS
+    bbox = [0.0, 0.0, 10.0, 10.0]
+    for name, ring, valid in INVALID_SHAPES:
+        shape = {'kind': name, 'polys': [[[list(p) for p in ring], []]]}
+        for form in ('wkt', 'shapely'):
+            for fn in ('mask_image', 'mask_image_source_from_coverage', 'merge-layer', 'merge-global'):
+                rep = {'stream': 'invalid-geometry', 'function': fn, 'shape': name, 'ring_relative_to_bbox': ring, 'form': form,
+                       'bbox': bbox, 'size': [64, 64]}
+                ctx.case(('invalid-direct', fn, name, form), True, rep)
+                try:
+                    cov = load_limited_to(limited_to(ring, None, form, 'EPSG:4326', bbox))
+                    src = Image.new('RGB', (64, 64), (200, 30, 40))
+                    opts = ImageOptions(transparent=True, format='image/png')
+                    if fn == 'mask_image':
+                        res = mask_image(src, bbox, SRS(4326), cov)
+                    elif fn == 'mask_image_source_from_coverage':
+                        res = mask_image_source_from_coverage(ImageSource(src, image_opts=opts), bbox, SRS(4326), cov).as_image()
+                    else:
+                        m = LayerMerger()
+                        m.add(ImageSource(src, image_opts=opts), cov if fn == 'merge-layer' else None)
+                        m.add(ImageSource(Image.new('RGBA', (64, 64), (0, 0, 0, 0)), image_opts=opts), None)
+                        res = m.merge(opts, size=(64, 64), bbox=bbox, bbox_srs=SRS(4326),
+                                      coverage=cov if fn == 'merge-global' else None).as_image()
+                except Exception as e:  # noqa
+                    ctx.count('invalid.direct.%s.exception.%s' % (fn, type(e).__name__))
+                    continue
+                ctx.count('invalid.direct.%s.image' % fn)
+                check_pixels(res.convert('RGBA'), shape, fn, rep)
+
+
 def load_corpus():
     res = []
     if os.path.isdir(CORPUS):
@@ -2088,4 +2288,9 @@ def load_corpus():
 def run(ctx):
     corpus = load_corpus()
     stream_merge(ctx, corpus)
+    try:
+        stream_invalid(ctx)
+    except Exception as e:  # noqa
+        import traceback
+        ctx.problem('harness', 'invalid-geometry stream raised %r' % (e,), traceback.format_exc())
     stream_app(ctx, corpus)
